@@ -154,7 +154,7 @@ func (C11) Generate(r *core.RNG, tier string, idx uint64) interface{} {
 	}
 	switch r.Intn(11) {
 	case 10: // labels that only differ once they are joined or trimmed: "a b" vs "a","b"; "" vs nothing; " " vs ""
-		pairs := [][2][]string{{{"a b"}, {"a", "b"}}, {{"x", "y z"}, {"x", "y", "z"}}, {{""}, {}}, {{"", ""}, {" "}}, {{"a "}, {"a"}}, {{"a,b"}, {"a", "b"}}}
+		pairs := [][2][]string{{{"a", "a"}, {"b", "b"}}, {{"a", "a", "c"}, {"c", "b", "b"}}, {{"a", "a", "a"}, {"a", "b", "b"}}, {{"a b"}, {"a", "b"}}, {{"x", "y z"}, {"x", "y", "z"}}, {{""}, {}}, {{"", ""}, {" "}}, {{"a "}, {"a"}}, {{"a,b"}, {"a", "b"}}}
 		pr := pairs[r.Intn(len(pairs))]
 		for i := range p.Recips {
 			ls := pr[0]
